@@ -586,6 +586,7 @@ var xBodies = []string{"Hi ", "a@b.com ", "bob@nyaruka.com", "@@x ", "@@contact 
 func genTemplate(r *fw.Rand, exotic bool) string {
 	n := r.Weighted([]int{0, 5, 4, 2})
 	var b strings.Builder
+	var used []string // expression texts already in the template
 	for i := 0; i < n; i++ {
 		for r.Chance(0.5) {
 			b.WriteString(fw.Pick(r, xBodies))
@@ -595,15 +596,54 @@ func genTemplate(r *fw.Rand, exotic bool) string {
 			p := fw.Pick(r, xPaths)
 			p = strings.Split(p, "[")[0]
 			g := &xgen{r: r}
-			b.WriteString("@" + g.caseMix(p, 0.3))
+			e := g.caseMix(p, 0.3)
+			used = append(used, e)
+			b.WriteString("@" + e)
 		default:
-			b.WriteString("@(" + genExpr(r, exotic) + ")")
+			e := genExpr(r, exotic)
+			used = append(used, e)
+			b.WriteString("@(" + e + ")")
 		}
 		for r.Chance(0.35) {
 			b.WriteString(fw.Pick(r, xBodies))
 		}
+		// the same expression text again, in the other wrapping and directly followed by characters that would
+		// continue an identifier (a rewriter that keys anything by expression text alone must not confuse them)
+		if len(used) > 0 && r.Chance(0.25) {
+			e := fw.Pick(r, used)
+			b.WriteString(fw.Pick(r, []string{" ", "", "-", "/"}))
+			switch r.Intn(4) {
+			case 0:
+				b.WriteString("@(" + e + ")" + fw.Pick(r, []string{"s", ".name", "_x", "1", ".0", "bob"}))
+			case 1:
+				b.WriteString("@(" + e + ")")
+			case 2:
+				b.WriteString("@(" + e + ") @(" + e + ")." + fw.Pick(r, []string{"a", "value", "0"}))
+			default:
+				if isPlainPath(e) {
+					b.WriteString("@" + e + fw.Pick(r, []string{" ", ". ", "!", ""}))
+				} else {
+					b.WriteString("@(" + e + ")x")
+				}
+			}
+		}
 	}
 	return b.String()
+}
+
+func isPlainPath(e string) bool {
+	if e == "" {
+		return false
+	}
+	for i, c := range e {
+		switch {
+		case c >= 'a' && c <= 'z', c >= 'A' && c <= 'Z', c == '_':
+		case (c >= '0' && c <= '9' || c == '.') && i > 0:
+		default:
+			return false
+		}
+	}
+	return e[len(e)-1] != '.'
 }
 
 // contexts -----------------------------------------------------------------------------------
